@@ -131,5 +131,9 @@ def _lits_from_spec():
     import re
     from common import SPEC
     txt = (SPEC / "Signature.tla").read_text()
-    return [{"src": m.group(1), "t": m.group(2), "v": m.group(3)}
-            for m in re.finditer(r'\[src \|-> "([^"]*)",\s*t \|-> "([^"]*)",\s*v \|-> "([^"]*)"\]', txt)]
+    pat = re.compile(r'\[src \|-> "([^"]*)",\s*t \|-> "([^"]*)",\s*v \|-> "((?:[^"\\]|\\.)*)"\]')
+    out = []
+    for m in pat.finditer(txt):
+        v = m.group(3).replace('\\"', '"').replace("\\\\", "\\")      # undo TLA+ string escapes
+        out.append({"src": m.group(1), "t": m.group(2), "v": v})
+    return out
